@@ -102,6 +102,49 @@ def _return_in_loop(fn):
     return visit(fn, False)
 
 
+def _generator_inlinable(h):
+    """a generator whose only yields are `yield <value>` statements and that has no `return`: iterating over it runs its body
+    with the loop body in place of every yield"""
+    if isinstance(h, ast.AsyncFunctionDef) or h.args.vararg or h.args.kwarg or h.args.posonlyargs:
+        return False
+    for d in h.decorator_list:
+        if not (isinstance(d, ast.Name) and d.id == "staticmethod"):
+            return False
+    stmt_yields = {id(n.value) for n in ast.walk(h) if isinstance(n, ast.Expr) and isinstance(n.value, ast.Yield) and n.value.value is not None}
+    if not stmt_yields:
+        return False
+    for n in ast.walk(h):
+        if n is h:
+            continue
+        if isinstance(n, (ast.YieldFrom, ast.Global, ast.Nonlocal, ast.FunctionDef, ast.AsyncFunctionDef, ast.ClassDef, ast.Await, ast.Return, ast.Lambda)):
+            return False
+        if isinstance(n, ast.Yield) and id(n) not in stmt_yields:
+            return False
+    return True
+
+
+def _leaves_loop(body):
+    """break / continue that belong to the loop whose body this is"""
+    def visit(stmts):
+        for st in stmts:
+            if isinstance(st, (ast.Break, ast.Continue)):
+                return True
+            if isinstance(st, (ast.For, ast.AsyncFor, ast.While)):
+                if visit(st.orelse):
+                    return True
+                continue
+            if isinstance(st, (ast.FunctionDef, ast.AsyncFunctionDef, ast.ClassDef)):
+                continue
+            for f in ("body", "orelse", "finalbody"):
+                if visit(getattr(st, f, []) or []):
+                    return True
+            for h in getattr(st, "handlers", []) or []:
+                if visit(h.body):
+                    return True
+        return False
+    return visit(body)
+
+
 def _inlinable(h):
     if isinstance(h, ast.AsyncFunctionDef):
         return False
@@ -148,7 +191,7 @@ class _Flattener(object):
         self.caller_names = set()
 
     # -- resolution ------------------------------------------------------
-    def target(self, call, stack):
+    def target(self, call, stack, generator=False):
         f = call.func
         name = None
         is_method = False
@@ -162,7 +205,7 @@ class _Flattener(object):
             return None
         if h is None or not name.startswith("_") or name.startswith("__") or name in self.keep or name in stack:
             return None
-        if not _inlinable(h):
+        if not (_generator_inlinable(h) if generator else _inlinable(h)):
             return None
         static = any(isinstance(d, ast.Name) and d.id == "staticmethod" for d in h.decorator_list)
         params = [a.arg for a in h.args.args]
@@ -177,9 +220,10 @@ class _Flattener(object):
         return name, h, params
 
     # -- one call --------------------------------------------------------
-    def expand(self, call, result, stack):
-        """statements replacing `result = call` (result may be None); None if the call is not inlined"""
-        t = self.target(call, stack)
+    def expand(self, call, result, stack, gen_for=None):
+        """statements replacing `result = call` (result may be None); None if the call is not inlined.
+        gen_for = (target, body): statements replacing `for target in call: body` for a generator helper"""
+        t = self.target(call, stack, generator=gen_for is not None)
         if t is None:
             return None
         name, h, params = t
@@ -225,6 +269,28 @@ class _Flattener(object):
             pre.append(ast.copy_location(ast.Assign([tgt], copy.deepcopy(binding[p])), call))
             self.caller_names.add(mapping.get(p, p))
         self.caller_names |= {mapping.get(n, n) for n in local}
+        if gen_for is not None:
+            tgt, loop_body = gen_for
+
+            class Y(ast.NodeTransformer):
+                def visit_Expr(self_, node):
+                    if isinstance(node.value, ast.Yield):
+                        val = node.value.value
+                        if isinstance(tgt, ast.Tuple) and isinstance(val, ast.Tuple) and len(tgt.elts) == len(val.elts) \
+                                and all(isinstance(t_, ast.Name) for t_ in tgt.elts) \
+                                and not ({t_.id for t_ in tgt.elts} & {x.id for x in ast.walk(val) if isinstance(x, ast.Name)}):
+                            asg = [ast.copy_location(ast.Assign([copy.deepcopy(t_)], v_), node) for t_, v_ in zip(tgt.elts, val.elts)]
+                        else:
+                            asg = [ast.copy_location(ast.Assign([copy.deepcopy(tgt)], val), node)]
+                        return asg + copy.deepcopy(loop_body)
+                    return node
+            holder = ast.Module(body=body, type_ignores=[])
+            Y().visit(holder)
+            out = list(pre) + holder.body
+            for st in out:
+                ast.fix_missing_locations(st)
+            self.inlined.append(name)
+            return self.block(out, stack + [name])
         rets = [n for st in body for n in ast.walk(st) if isinstance(n, ast.Return)]
         single_tail = len(rets) == 1 and body and body[-1] is rets[0]
         out = list(pre)
@@ -359,6 +425,12 @@ class _Flattener(object):
             st2 = copy.copy(st)
             st2.value = v
             return pre + [st2]
+        if isinstance(st, ast.Expr) and isinstance(st.value, ast.Yield) and st.value.value is not None:
+            # `yield helper(...)`: the helper runs before the value is handed out
+            pre, v = self.hoist_expr(st.value.value, stack)
+            st2 = copy.copy(st)
+            st2.value = ast.copy_location(ast.Yield(v), st.value)
+            return pre + [st2]
         if isinstance(st, ast.Assign) and len(st.targets) == 1:
             if isinstance(st.value, ast.Call):
                 r = self.expand(st.value, st.targets[0], stack) if isinstance(st.targets[0], (ast.Name, ast.Attribute, ast.Subscript, ast.Tuple)) else None
@@ -380,6 +452,11 @@ class _Flattener(object):
             st2.body = self.block(st.body, stack)
             st2.orelse = self.block(st.orelse, stack)
             return pre + [st2]
+        if isinstance(st, ast.For) and isinstance(st.iter, ast.Call) and not st.orelse and not _leaves_loop(st.body):
+            # `for x in _generator_helper(...)`: the helper's body with the loop body at every yield
+            r = self.expand(st.iter, None, stack, gen_for=(st.target, st.body))
+            if r is not None:
+                return r
         if isinstance(st, (ast.For, ast.AsyncFor)):
             pre, v = self.hoist_expr(st.iter, stack)
             st2 = copy.copy(st)
